@@ -175,6 +175,9 @@ def multichain_policy_iteration_vectorized(
         gain_bias = coeff_block.T@gram_solution
         gain, bias = gain_bias[:n_states], gain_bias[n_states:]
 
+        bias_q = sa_rf + discount_rate*np.einsum("san,n->sa", transition_matrix, bias) + action_penalty
+        bias_q[absorbing_state_vec] = 0
+
         # Policy improvement based on *gain*
         # Note: We always break max ties on the side of the previous policy
         gain_q = np.einsum("san,n->sa", transition_matrix, gain) + action_penalty
@@ -187,8 +190,6 @@ def multichain_policy_iteration_vectorized(
 
         # Policy improvement based on *bias*
         # Note: We always break max ties on the side of the previous policy
-        bias_q = sa_rf + discount_rate*np.einsum("san,n->sa", transition_matrix, bias) + action_penalty
-        bias_q[absorbing_state_vec] = 0
         new_policy = np.argmax(bias_q, axis=-1)
         policy_is_max = np.isclose(bias_q[ss_range, policy], bias_q[ss_range, new_policy])
         new_policy[policy_is_max] = policy[policy_is_max]
